@@ -873,12 +873,17 @@ func (k *KWorld) Add0(p string) {
 	c := filepath.Clean(p)
 	id := sident(c)
 	err := k.w.Add(p)
-	if (err == nil) != id.ok {
-		// only existing paths are generated; an error here is unexpected
-		k.find(FKEvents, "Add(%q) returned %v, path exists=%v", p, err, id.ok)
+	if err == nil && !id.ok {
+		// the path is gone (its directory was renamed away) but a watch made
+		// under this name is still alive: the backend re-registers that one.
+		// What Add returns is not part of C17/C18; the watch set is unchanged.
+		k.Feat["add-of-a-vanished-path-accepted-through-a-live-watch"]++
 		return
 	}
 	if err != nil {
+		if id.ok {
+			k.Feat["add-of-an-existing-path-failed"]++
+		}
 		return
 	}
 	addedEver[k.root+"\x00"+c] = true
